@@ -10,14 +10,14 @@ CONSTANTS
   EncChoices = {FALSE, TRUE}
   ByValueMax = 2
   AllowConflicts = FALSE
-  Features = {"apps", "storage"}
+  Features = {"apps", "storage", "newid"}
   Window = 1024
   Retention = 3
   BurstSizes = {1, 2}
   PskIds = {}
   PskValues = {"none"}
   JitterChoices = {99999}
-  Deviations = {"F12", "F14"}
+  Deviations = {"F12", "F14", "F24"}
   MaxApps = 30
   MaxSucc = 6
   CapX = {}
